@@ -124,3 +124,106 @@ impl Lcg {
         (self.next_u64() >> 11) as f64 / (1u64 << 53) as f64
     }
 }
+
+use crate::subjects::Kind;
+
+/// Input family of an indicator for generic "all 22 indicators" checks:
+/// close-only kinds get scalars, bar-only kinds get bars, kinds with both a
+/// scalar path and a genuine bar path get a mix of both.
+pub fn generic_alphabet(kind: Kind, special: bool) -> Vec<Op> {
+    let sc = [Op::S(1.0), Op::S(2.0), Op::S(4.0), Op::S(7.0)];
+    let bars = [
+        Op::B(Bar::hlcv(1.0, 1.0, 1.0, 1.0)),
+        Op::B(Bar::hlcv(2.0, 1.0, 2.0, 3.0)),
+        Op::B(Bar::hlcv(4.0, 2.0, 2.0, 1.0)),
+        Op::B(Bar::hlcv(4.0, 1.0, 2.0, 0.0)),
+    ];
+    let sp_s = [Op::S(f64::NAN), Op::S(f64::INFINITY), Op::S(f64::NEG_INFINITY), Op::S(-f64::MAX)];
+    let sp_b = [
+        Op::B(Bar { o: 1.0, h: f64::NAN, l: 1.0, c: f64::NAN, v: 1.0 }),
+        Op::B(Bar { o: 1.0, h: f64::INFINITY, l: f64::NEG_INFINITY, c: f64::INFINITY, v: f64::INFINITY }),
+        Op::B(Bar { o: 1.0, h: 1.0, l: 3.0, c: 2.0, v: f64::NAN }),
+        Op::B(Bar { o: 1.0, h: f64::MAX, l: -f64::MAX, c: -f64::MAX, v: f64::MAX }),
+    ];
+    let mut v: Vec<Op> = vec![];
+    if !kind.has_scalar() {
+        v.extend(bars);
+        if special {
+            v.extend(sp_b);
+        }
+    } else if kind.bar_native() {
+        v.extend([sc[0], bars[1], sc[2], bars[3]]);
+        if special {
+            v.extend([sp_s[0], sp_b[1], sp_s[2], sp_b[0]]);
+        }
+    } else {
+        v.extend(sc);
+        if special {
+            v.extend(sp_s);
+        }
+    }
+    v
+}
+
+/// Continuation alphabet: finite values plus NaN and +inf.
+pub fn continuation_alphabet(kind: Kind) -> Vec<Op> {
+    let mut v: Vec<Op> = vec![];
+    if !kind.has_scalar() {
+        v.extend([
+            Op::B(Bar::hlcv(2.0, 1.0, 2.0, 3.0)),
+            Op::B(Bar::hlcv(4.0, 2.0, 3.0, 1.0)),
+            Op::B(Bar::hlcv(1.0, 1.0, 1.0, 2.0)),
+            Op::B(Bar { o: 1.0, h: f64::NAN, l: f64::NAN, c: f64::NAN, v: f64::NAN }),
+            Op::B(Bar { o: 1.0, h: f64::INFINITY, l: 1.0, c: f64::INFINITY, v: 1.0 }),
+        ]);
+    } else if kind.bar_native() {
+        v.extend([
+            Op::S(2.0),
+            Op::B(Bar::hlcv(4.0, 2.0, 3.0, 1.0)),
+            Op::S(1.0),
+            Op::S(f64::NAN),
+            Op::B(Bar { o: 1.0, h: f64::INFINITY, l: 1.0, c: f64::INFINITY, v: 1.0 }),
+        ]);
+    } else {
+        v.extend([Op::S(2.0), Op::S(4.0), Op::S(1.0), Op::S(f64::NAN), Op::S(f64::INFINITY)]);
+    }
+    v
+}
+
+/// Standard configuration sets for the generic checks.
+pub fn generic_cfgs(kind: Kind, periods: &[usize], tuple_vals: &[usize]) -> Vec<crate::subjects::Cfg> {
+    use crate::subjects::Cfg;
+    let mut v = vec![];
+    match kind.nperiods() {
+        0 => v.push(Cfg::p0(kind)),
+        1 => {
+            for &p in periods {
+                if kind.has_mult() {
+                    v.push(Cfg::pm(kind, p, 2.0));
+                } else {
+                    v.push(Cfg::p1(kind, p));
+                }
+            }
+            if kind.has_mult() {
+                v.push(Cfg::pm(kind, periods[periods.len() / 2], 0.5));
+            }
+        }
+        2 => {
+            for &a in tuple_vals {
+                for &b in tuple_vals {
+                    v.push(Cfg::p2(kind, a, b));
+                }
+            }
+        }
+        _ => {
+            for &a in tuple_vals {
+                for &b in tuple_vals {
+                    for &c in tuple_vals {
+                        v.push(Cfg::p3(kind, a, b, c));
+                    }
+                }
+            }
+        }
+    }
+    v
+}
